@@ -112,7 +112,13 @@ func c15MangleCase(rep *Report, workdir, class string, files map[string]string, 
 		for n := range seen[p] {
 			if q, ok := byName[n]; ok && q != p {
 				rp.Diff = fmt.Sprintf("properties %s and %s are both emitted as %s", q, p, n)
-				rep.violate(class+"/two-properties-one-name", rp.Diff, rp)
+				cls := class + "/two-properties-one-name"
+				if len(entries) > 1 && !strings.Contains(opt, "splitting") && !withCache {
+					// every entry point linked on its own with an empty table: the other face of the known
+					// finding c15-mangle-props-differ-between-entry-points
+					cls += ":separate-links"
+				}
+				rep.violate(cls, rp.Diff, rp)
 				return
 			}
 			byName[n] = p
